@@ -283,7 +283,7 @@ def get_rules(app) -> list:
 
 # ------------------------------------------------------------------ query strings
 
-GENERIC = ["", "none", "None", "0", "1", "-1", "00", "+5", "1_0", " 7 ", "1.5", "1e3", "1e400", "nan", "inf", "-inf",
+GENERIC = ["{foo}", "{", "{0}", "{default_kid:>999999999}", "%s%n", "a" * 4097, "a" * 70000, "", "none", "None", "0", "1", "-1", "00", "+5", "1_0", " 7 ", "1.5", "1e3", "1e400", "nan", "inf", "-inf",
            "0x10", "٣", "²", "99999999999", "18446744073709551616", "9" * 30, "-99999999999", "true", "on", "TRUE",
            "foo", "a,b", "a=b", "=", ",", "-", "--", "a-b", "x" * 300, "%", "%zz", "<&>\"'", "é", "\U0001F600", "\x00",
            "\x1f", "null", "[]", "{}", "[1]", "{{7*7}}", "../..", "$Number$", "all", "all-", "all-foo", "all-pro",
@@ -373,6 +373,18 @@ def option_kinds() -> dict:
     return {r["cgi"]: r["kind"] for r in gen_options.dump()["rows"]}
 
 
+# very long values and strings that look like format templates, for every string-typed option
+LONG_SIZES = [1024, 4096, 4097, 32700, 65535 - 8, 65536 + 8, 1 << 20]
+FORMAT_STRINGS = ["{foo}", "{", "}", "{0}", "{}", "{cfgs}", "{cfgs.x}", "{kids[9]}", "{default_kid!r}",
+                  "{default_kid:>999999999}", "{:>99999999999}", "%s%s%s%n", "%(x)s", "${x}", "#{x}", "{{", "}}"]
+STRING_KINDS = (".strOrNone", ".strRaw", ".quotedUrl", ".listJoin")
+
+
+def long_value(n: int, url: bool = False) -> str:
+    head = "https://lic.example/" if url else ""
+    return head + "a" * max(0, n - len(head))
+
+
 EXTRA_NAMES = ["x", "", "drm ", "DRM", "clearkey_la_url", "playready_la_url", "marlin_la_url", "es5", "next",
                "mode", "title", "csrf_token", "ajax", "_", "drm[]", "events.ping"]
 
@@ -399,6 +411,9 @@ def gen_query(rng, names: list, pool: dict, n_max: int = 4, kinds: dict | None =
         q.append(["failures", rng.choice(["0", "1", "2", "-1", "none", "x"])])
     if q and rng.random() < .25:
         q.append(["events", rng.choice(["ping", "scte35", "ping,scte35"])])
+    if any(k.endswith("la_url") for k, _ in q):
+        # a license URL is only used when the DRM is selected
+        q.append(["drm", rng.choice(["all", "playready", "marlin,clearkey", "playready-pro"])])
     if any(k == "depth" for k, _ in q) and rng.random() < .5:
         # the time shift buffer is listed segment by segment in a SegmentTimeline
         q += [["timeline", "1"], ["start", rng.choice(["epoch", "year", "2000-01-01T00:00:00Z"])]]
